@@ -210,7 +210,10 @@ class _ClassProxy:
             key = (cls.__module__, cls.__name__, _argkey(a), _argkey(sorted(k.items())))
         except TypeError:
             return cls(*a, **k)
-        return _pool.obj(key, lambda: cls(*a, **k))
+        # built from private copies: a class that stores its arguments by reference (Line, Box) must not follow later
+        # in-place updates of the pooled buffers, or the object would no longer be the value its key says
+        priv = lambda x: _np.array(x) if isinstance(x, _np.ndarray) else x
+        return _pool.obj(key, lambda: cls(*[priv(x) for x in a], **{n: priv(x) for n, x in k.items()}))
 
     def __getattr__(self, name):
         return getattr(self._cls, name)
